@@ -1,7 +1,7 @@
 from vtlib.core import Obl
 from harness.c05 import CELLS
 
-FILES = ["mdtraj/geometry/src/neighbors.cpp", "mdtraj/geometry/include/neighbors.hpp"]
+FILES = ["mdtraj/geometry/src/neighbors.cpp", "mdtraj/geometry/include/neighbors.hpp", "mdtraj/geometry/src/neighborlist.cpp"]
 META = {
     "files": FILES,
     "explanation": "E3 llsym on the IR of neighbors.cpp:_compute_neighbors. The two std::vector<int> arguments are built in interpreter memory "
@@ -11,11 +11,15 @@ META = {
                    "no-cell: exactly the distance criterion (z3 on exact polynomials); periodic: for every unreported atom and query atom, first the "
                    "wrap domain of the kernel's wrapped difference W is PROVED from the path's rounding constraints (linear), then an EXACT "
                    "non-linear real query per lattice vector (+-2 cells) shows that |W| >= cutoff excludes any closer image. The kernel only wraps "
-                   "and does not search 27 images; that this suffices whenever cutoff <= half the cell width is what is proved.",
+                   "and does not search 27 images; that this suffices whenever cutoff <= half the cell width is what is proved. "
+                   "THE VOXEL LIST (neighborlist.cpp), engine E5 cxxsym: _compute_neighborlist with its Voxels class is lowered from clang's JSON AST and executed on two atoms whose x "
+                   "coordinates are symbolic reals anywhere within +-2.5 cell lengths while y and z run over a grid of fractional positions on both sides of every face and outside the "
+                   "cell; every quantity is then linear in the unknowns plus floor / round integers, |d|^2 against cutoff^2 is a bound on |dx|; forks on range tests, binary searches and "
+                   "sort order; per path the two lists must be the symmetric pair exactly when some lattice image is within the cutoff, else empty (no duplicates).",
     "trusted_base": ["clang 14 -O2 IR incl. libstdc++ vector code", "vtlib/llsym.py", "z3 nlsat for the exact queries", "triangle-inequality pruning of far lattice vectors on concrete numbers"],
     "assumptions": ["cells from the catalogue (off exact rounding ties)", "cutoff in {0.9, 1.0} x half the smallest cell width", "atoms anywhere (the wrapped difference ranges over the whole wrap domain)"],
-    "out": ["compute_neighborlist (neighborlist.cpp: nested std::vector bins, std::sort, binary searches over symbolic keys — container shapes depend on symbolic data; not encodable with this interpreter): "
-            "its symmetric / irreflexive / duplicate-free clauses and the voxel hashing are NOT decided", "the Cython frame loop neighbors.pyx"],
+    "out": ["compute_neighborlist for more than two atoms at once and for symbolic y / z (the voxel list is decided for ATOM PAIRS with symbolic x and y, z on a 4 x 4 grid of fractional positions per atom, "
+            "see voxel_pair; the sort / binary search then see at most two entries per bin)", "the Cython frame loops neighbors.pyx / neighborlist.pyx", "float32 rounding (reals; 1e-5 around the cutoff excluded)"],
 }
 
 
@@ -32,12 +36,27 @@ def obligations():
                      params={"cell": c, "cutoff_frac": 1.0}, tiers=("quick", "thorough") if quick else ("thorough",)))
         o.append(Obl(f"C10.neighbors.{c}.q2", "py", H, "check_neighbors", enc, f"cell {c}, cutoff = 0.9 x half width, query {{0,1}}, haystack {{2,1,0}}", "same with two query atoms and an unsorted haystack", 900,
                      params={"cell": c, "cutoff_frac": 0.9, "query": [0, 1], "haystack": [2, 1, 0]}, tiers=("thorough",)))
+    V = "harness.c10_voxel"
+    venc = ["neighborlist.cpp:_compute_neighborlist", "Voxels::getVoxelIndex", "Voxels::getNeighbors", "Voxels::findLowerBound", "Voxels::findUpperBound", "Voxels::insert / sortItems"]
+    for c in ("cubic3", "ortho543", "triclinic", "hex", "ortho345"):
+        for g in range(16):
+            o.append(Obl(f"C10.voxel.{c}.g{g}", "py", V, "voxel_pair", venc, f"2 atoms, cell {c}, cutoff 0.8 x half width; x of both atoms symbolic in +-2.5 cells; atom 0 at (y, z) grid point {g} of 16, atom 1 over all 16 (fractional -0.3, 0.15, 0.85, 1.2)",
+                         "lists == [[1], [0]] exactly when some lattice image of the pair is closer than the cutoff, else [[], []]: symmetric, irreflexive, duplicate-free, wherever the atoms sit relative to the primary cell", 1500,
+                         params={"cell": c, "cut_frac": 0.8, "g0": g}, tiers=("quick", "thorough") if c != "ortho345" else ("thorough",)))
+    for c, cf in (("cubic3", 0.95), ("triclinic", 0.95), ("hex", 0.95), ("ortho543", 0.4), ("cubic3", 0.4)):
+        for g in (0, 5, 10, 15):
+            o.append(Obl(f"C10.voxel.{c}.cut{int(cf * 100)}.g{g}", "py", V, "voxel_pair", venc, f"same, cutoff {cf} x half width, grid point {g}", "same", 3000, params={"cell": c, "cut_frac": cf, "g0": g},
+                         tiers=("quick", "thorough") if (cf == 0.95 and g in (0, 10)) else ("thorough",)))
+    for c in ("cubic3", "triclinic"):
+        for g in (0, 5, 10, 15):
+            o.append(Obl(f"C10.voxel.nocell.{c}.g{g}", "py", V, "voxel_pair", venc, f"no cell (coordinates laid out as for cell {c}), cutoff as there, grid point {g}", "lists == [[1], [0]] exactly when the plain distance is below the cutoff", 600,
+                         params={"cell": c, "cut_frac": 0.8, "g0": g, "periodic": False}))
     return o
 
 
 MANIFEST_INFO = {
-    "engine": "llsym",
-    "technique": "forking symbolic interpretation of neighbors.cpp's LLVM IR (incl. std::vector code) with symbolic coordinates; exact non-linear real queries on the wrapped difference",
-    "text": "compute_neighbors' kernel is proved to return exactly the haystack atoms within the cutoff (minimum-image sense) for every atom placement, for catalogue cells and cutoffs up to half the cell width. compute_neighborlist is NOT claimed.",
-    "note": "Partial: only the compute_neighbors half of the property. neighborlist.cpp (voxel bins, sort, binary search) is outside the reach of the IR interpreter; neighbors.pyx frame loop is Cython.",
+    "engine": "llsym+cxxsym",
+    "technique": "forking symbolic interpretation of neighbors.cpp's LLVM IR (incl. std::vector code) with symbolic coordinates and exact non-linear real queries on the wrapped difference; the voxel list neighborlist.cpp lowered from clang's JSON AST and executed on atom pairs with symbolic x (z3 linear arithmetic with floor / round integers), native shim replay",
+    "text": "compute_neighbors' kernel returns exactly the haystack atoms within the cutoff (minimum-image sense) for every atom placement, for catalogue cells and cutoffs up to half the cell width. compute_neighborlist's voxel search lists an atom pair (symmetrically, once) exactly when an image is within the cutoff, for every x of both atoms within +-2.5 cells and a grid of y / z positions inside and outside the cell, for five cells and no cell.",
+    "note": "The voxel list is decided for pairs (two atoms per call) with y / z on a grid; the Cython frame loops are outside. A defect found this way (atoms outside the primary cell lose neighbours) was repaired in b5a4600c.",
 }
